@@ -106,12 +106,12 @@ func (m *MClaims) WirePairs() [][2]*icbor.Node {
 	}
 	if m.Nonces != nil {
 		ns := *m.Nonces
-		if len(ns) == 1 {
+		if len(ns) == 1 && ns[0] != nil {
 			add(k(CNonce), icbor.Bstr(ns[0]))
 		} else {
 			var items []*icbor.Node
 			for _, n := range ns {
-				items = append(items, icbor.Bstr(n))
+				items = append(items, nonceItem(n))
 			}
 			add(k(CNonce), icbor.Arr(items...))
 		}
@@ -184,18 +184,27 @@ func containerValues(sc *swContainer) ([]*psatoken.SwComponent, bool) {
 	return v, true
 }
 
+// nonceItem: one entry of a multi-entry nonce claim; a nil slice stands for
+// a CBOR null entry (an empty non-nil slice for h'').
+func nonceItem(x []byte) *icbor.Node {
+	if x == nil {
+		return icbor.Null()
+	}
+	return icbor.Bstr(x)
+}
+
 func eatNonce(ns [][]byte) *eat.Nonce {
 	n := eat.Nonce{}
 	var node *icbor.Node
 	if len(ns) == 0 {
 		return &n
 	}
-	if len(ns) == 1 {
+	if len(ns) == 1 && ns[0] != nil {
 		node = icbor.Bstr(ns[0])
 	} else {
 		var items []*icbor.Node
 		for _, x := range ns {
-			items = append(items, icbor.Bstr(x))
+			items = append(items, nonceItem(x))
 		}
 		node = icbor.Arr(items...)
 	}
